@@ -78,7 +78,7 @@ def parse_dump(rp):
 
 def parse_reply(rp, mode):
     out = dict(operational=rp.u32(), ctor_err=rp.u32(), ctor_done=rp.u32(), ctor_p2sh=rp.u32())
-    if mode in (0, 1, 3, 4, 6):
+    if mode in (0, 1, 3, 4, 6, 8):
         out['ret'] = rp.u32(); out['threw'] = rp.u32(); out['post'] = parse_dump(rp)
     elif mode == 2:
         out['pre'] = parse_dump(rp); out['ret'] = rp.u32(); out['threw'] = rp.u32(); out['post'] = parse_dump(rp)
